@@ -24,3 +24,17 @@ uint32_t m_memcmp(void *a_, void *b_, uint64_t n) { uint8_t *a = (uint8_t *)a_, 
   for (uint64_t i = 0; i < n; i++) if (a[i] != b[i]) return a[i] < b[i] ? (uint32_t)-1 : 1;
   return 0;
 }
+uint64_t m_strcspn(void *s_, void *rej_) { uint8_t *s = (uint8_t *)s_, *rej = (uint8_t *)rej_; uint64_t n = 0;
+  for (;; n++) {
+    if (s[n] == 0) return n;
+    for (uint64_t j = 0; rej[j] != 0; j++) if (s[n] == rej[j]) return n;
+  }
+}
+uint64_t m_strspn(void *s_, void *acc_) { uint8_t *s = (uint8_t *)s_, *acc = (uint8_t *)acc_; uint64_t n = 0;
+  for (;; n++) {
+    int hit = 0;
+    if (s[n] == 0) return n;
+    for (uint64_t j = 0; acc[j] != 0; j++) if (s[n] == acc[j]) hit = 1;
+    if (!hit) return n;
+  }
+}
